@@ -32,7 +32,10 @@ def hostile_name(gopher_ok=True, min_size=1, max_size=8):
         st.sampled_from(list("abcxyz019")),
         _chars(_RESERVED),
         _chars(_HIGH),
-        st.sampled_from(list("éü€")).map(lambda c: c.encode("utf-8").decode("latin-1")),
+        # valid UTF-8: precomposed, and sequences that Unicode normalisation would rewrite (decomposed accent, OHM SIGN,
+        # ANGSTROM SIGN, a CJK compatibility ideograph, a ligature, a full-width letter)
+        st.sampled_from(list("éü€") + ["e\u0301", "\u2126", "\u212b", "\uf900", "\ufb01", "\uff21", "\u1e9b\u0323"]).map(
+            lambda c: c.encode("utf-8").decode("latin-1")),
         _chars(pool),
     )
     return st.lists(ch, min_size=min_size, max_size=max_size).map("".join)
